@@ -240,7 +240,25 @@ impl<const N: usize> Exec<N> {
             return Ok(Applied::Skipped);
         }
         let hm = hi.m.clone();
-        if !gi.m.is_present(left) || gi.m.tree_root().is_none() || !hm.is_tree_rooted_at(right) {
+        if !gi.m.is_present(left) || gi.m.tree_root().is_none() {
+            return Ok(Applied::Skipped);
+        }
+        if !hm.is_tree_rooted_at(right) {
+            // a right graph that is a tree from `right` plus vertices that are not reachable from it
+            // (and holds no data): sodg rejects it in a defined way. Whether and what it answers is
+            // C12's (not claimed); the graph lives on and the allocator clauses of C05 still bind.
+            let shape_ok = hm.tree_from(right).is_some_and(|r| r.len() < hm.present.len())
+                && hm.present.values().all(|v| v.data.is_none());
+            if shape_ok && self.view.followers(dst).is_empty() {
+                if let Some(new) = merge_precheck(&gi.m, &hm, left, right) {
+                    let model_pos = gi.m.returned.iter().next_back().map_or(0, |x| x + 1);
+                    let pos = model_pos.max(gi.next_v);
+                    let room = (pos..gi.m.cap).filter(|v| !gi.m.is_present(*v)).count();
+                    if room >= new {
+                        return self.do_rejected_merge(dst, src, left, right, s);
+                    }
+                }
+            }
             return Ok(Applied::Skipped);
         }
         let Some(new) = merge_precheck(&gi.m, &hm, left, right) else {
@@ -481,6 +499,92 @@ impl<const N: usize> Exec<N> {
         all.push(src);
         self.check_untouched(&all)?;
         self.hash_step(s, &format!("{new_ids:?}"));
+        Ok(Applied::Done)
+    }
+
+    /// merge() with a right graph sodg rejects (see do_merge). Nothing of C11 is judged. The model
+    /// adopts whatever part of the tree the call grafted before it gave up; ids it created must have
+    /// been absent (C05). If the outcome cannot be followed, the instance is poisoned without alarm.
+    fn do_rejected_merge(&mut self, dst: usize, src: usize, left: usize, right: usize, s: &Step) -> Result<Applied, Failure> {
+        self.refresh_hints(dst);
+        let before = self.view.insts[dst].as_ref().unwrap().m.clone();
+        let hm = self.view.insts[src].as_ref().unwrap().m.clone();
+        let mut g = self.gs[dst].take().unwrap();
+        let h = self.gs[src].as_ref().unwrap();
+        let r = guarded(|| g.merge(h, left, right));
+        self.gs[dst] = Some(g);
+        self.stats.bump("merge.rejected_shape_calls");
+        match &r {
+            Ok(Ok(())) => self.stats.bump("merge.rejected_shape_returned_ok"),
+            Ok(Err(_)) => self.stats.bump("merge.rejected_shape_returned_err"),
+            Err(_) => {
+                self.stats.bump("merge.rejected_shape_panicked");
+                self.view.insts[dst].as_mut().unwrap().poisoned = true;
+                return Ok(Applied::Done);
+            }
+        }
+        let probes = self.view.probe_labels();
+        let g = self.gs[dst].as_ref().unwrap();
+        let mut m = before.clone();
+        let mut flat: Vec<Op> = Vec::new();
+        let mut new_ids = Vec::new();
+        let mut todo = vec![(left, right)];
+        while let Some((l, r)) = todo.pop() {
+            for (a, to) in &hm.present[&r].edges {
+                let Some(t) = guarded(|| g.kid(l, a.to_label())).ok().flatten() else { continue };
+                if before.kid(l, a).is_none() {
+                    if before.is_present(t) || new_ids.contains(&t) || t >= m.cap {
+                        return fail(
+                            "merge.new-vertex-id-was-present",
+                            clauses::C05,
+                            format!("a rejected merge created ν{l} .{a:?} → ν{t}, but ν{t} was already a vertex of g (or is out of range)"),
+                        );
+                    }
+                    if before.returned.contains(&t) {
+                        return fail(
+                            "next_id.repeated",
+                            clauses::C05,
+                            format!("a rejected merge created ν{t}, an id next_id() had handed out before (lineage {:?})", before.returned),
+                        );
+                    }
+                    m.add(t);
+                    m.bind(l, t, a);
+                    m.note_returned(t);
+                    new_ids.push(t);
+                    flat.push(Op::Add(t));
+                    flat.push(Op::Bind(l, t, a.clone()));
+                }
+                todo.push((t, *to));
+            }
+        }
+        let obs = match observe(g, &probes, false) {
+            Ok(o) => o,
+            Err(_) => {
+                self.view.insts[dst].as_mut().unwrap().poisoned = true;
+                return Ok(Applied::Done);
+            }
+        };
+        let inst = self.view.insts[dst].as_mut().unwrap();
+        if obs.keys != m.keys() || check_edges(&obs, &m, &probes).is_err() {
+            // cannot be followed (e.g. the call rolled back half-way): only the memory observer goes on
+            inst.poisoned = true;
+            self.stats.bump("merge.rejected_shape_not_followed");
+            return Ok(Applied::Done);
+        }
+        inst.m = m;
+        inst.last_obs = obs;
+        inst.version += 1;
+        inst.age += 1;
+        inst.merged = true;
+        inst.oplog.extend(flat.into_iter().map(|op| LogOp { op, add_present: false }));
+        for t in &new_ids {
+            let k = self.view.fresh_var();
+            self.view.set_var(k, *t);
+        }
+        self.stats.add("merge.rejected_shape_vertices_adopted", new_ids.len() as u64);
+        self.refresh_hints(dst);
+        self.check_untouched(&[dst])?;
+        self.hash_step(s, &format!("rejected {new_ids:?}"));
         Ok(Applied::Done)
     }
 
